@@ -313,8 +313,21 @@ def run_impl(plugin, cases):
     if len(cases) < 64:
         return [_work(c) for c in cases]
     ctx = multiprocessing.get_context("fork")
+    res = []
+    timeouts = 0
     with ctx.Pool(NPROC) as pool:
-        return pool.map(_work, cases, chunksize=max(1, min(200, len(cases) // (NPROC * 4))))
+        for r in pool.imap(_work, cases, chunksize=max(1, min(200, len(cases) // (NPROC * 4)))):
+            res.append(r)
+            if any(v[0] == "impl-timeout" or "CaseTimeout" in v[0] for v in r[1]):
+                timeouts += 1
+                if timeouts >= 6:
+                    # a non-terminating implementation: six cases that ran into the per-case limit are reported as
+                    # they are; waiting out the limit for every further case adds nothing (the caller truncates)
+                    say("6 cases hit the %ds limit; the remaining %d cases of this batch are not run" %
+                        (plugin.case_timeout, len(cases) - len(res)))
+                    pool.terminate()
+                    break
+    return res
 
 
 # --------------------------------------------------------------------------- known findings
@@ -452,6 +465,7 @@ def run_check(plugin, tier, seed, replay=None):
     cases = corpus + list(plugin.cases(rng, n, tier))
     say("running %d cases (%d corpus) on the implementation" % (len(cases), len(corpus)))
     results = run_impl(plugin, cases)
+    cases = cases[:len(results)]
     keys = set()
     n_model = n_agree = 0
     disagreements = []
@@ -540,6 +554,7 @@ def run_check(plugin, tier, seed, replay=None):
         say("an obligation is broken; searching %d more inputs for a failing one" % budget)
         extra = [c for (_, c, _, _) in disagreements] + list(plugin.cases(random.Random(seed + 1), budget, "search"))
         extra_res = run_impl(plugin, extra)
+        extra = extra[:len(extra_res)]
         for c, (out, viol, key) in zip(extra, extra_res):
             for cls, detail in viol:
                 violations.append({"kind": "oracle", "class": cls, "case": c, "detail": detail, "observed": out})
